@@ -203,7 +203,7 @@ func (c *Ctx) Violation(sig, caseID string, detail any) {
 	c.mu.Lock()
 	defer c.mu.Unlock()
 	for k := range c.known {
-		if k == sig || (strings.HasSuffix(k, "*") && strings.HasPrefix(sig, strings.TrimSuffix(k, "*"))) {
+		if k == sig || (strings.Contains(k, "*") && globMatch(k, sig)) {
 			c.knownMet[k]++
 			if _, ok := c.knownSample[k]; !ok {
 				c.knownSample[k] = map[string]any{"sig": sig, "case": caseID, "detail": detail}
@@ -218,6 +218,27 @@ func (c *Ctx) Violation(sig, caseID string, detail any) {
 		c.violOrder = append(c.violOrder, sig)
 	}
 	v.Count++
+}
+
+// globMatch: '*' in the pattern matches any run of characters.
+func globMatch(p, s string) bool {
+	parts := strings.Split(p, "*")
+	if !strings.HasPrefix(s, parts[0]) {
+		return false
+	}
+	s = s[len(parts[0]):]
+	for i := 1; i < len(parts); i++ {
+		part := parts[i]
+		if i == len(parts)-1 {
+			return strings.HasSuffix(s, part)
+		}
+		j := strings.Index(s, part)
+		if j < 0 {
+			return false
+		}
+		s = s[j+len(part):]
+	}
+	return s == ""
 }
 
 func (c *Ctx) Violations() int {
@@ -330,7 +351,12 @@ func (c *Ctx) Finish(rule string, minDistinct int) int {
 	for _, k := range kk {
 		fmt.Printf("KNOWN-FINDING: property=%s sig=%s %s (met %d times)\n", c.Prop, k, c.known[k], c.knownMet[k])
 	}
-	for _, v := range vl {
+	for i, v := range vl {
+		if i >= 25 {
+			fmt.Printf("... and %d more violation signatures (see evidence/%s.json violation_list and replay/%s/)\n", len(vl)-i, c.Prop, c.Prop)
+			fmt.Printf("VIOLATION property=%s replay=%s\n", c.Prop, vl[len(vl)-1].Replay)
+			break
+		}
 		d, _ := json.Marshal(v.Detail)
 		if len(d) > 600 {
 			d = append(d[:600], "..."...)
